@@ -13,10 +13,10 @@ mkdir -p $wt/$dest && cp -r $out/demo/* $wt/$dest/ && rm -f $wt/$dest/README*
 ( cd $wt && git apply $out/patch.diff ) || { echo "PATCH DOES NOT APPLY"; git -C /repo worktree remove --force $wt; exit 3; }
 ( cd $wt && go build ./... ) || { echo "DOES NOT BUILD"; git -C /repo worktree remove --force $wt; exit 3; }
 ( cd $wt && eval "$cmd" > /tmp/sd-$name-mut.log 2>&1 ); mut=$?
+for f in $(ls $out/demo); do rm -rf $wt/$dest/$f; done   # the demonstration is not part of the change under test
 pkgs=$(cd $wt && git diff --name-only | grep '\.go$' | xargs -n1 dirname | sort -u | sed 's|^|./|' | tr '\n' ' ')
 ( cd $wt && go test -vet=off -count=1 -p 4 $pkgs > /tmp/sd-$name-pkgtests.log 2>&1 ); pk=$?
 echo "SEED $name: demo on HEAD exit=$base (want 0), demo with change exit=$mut (want !=0), tests of touched packages [$pkgs] exit=$pk (want 0)"
-for f in $(ls $out/demo); do rm -rf $wt/$dest/$f; done   # the demonstration is not part of the change under test
 for id in "$@"; do
   o=$(cd /verif && VERIF_REPO=$wt ./check $id quick 2>&1); code=$?
   echo "SEED $name check $id exit=$code violations=$(echo "$o" | grep -c '^VIOLATION'); $(echo "$o" | grep '^\[check\] C' | tail -1)"
